@@ -745,8 +745,8 @@ fn related_data(rng: &mut Rng, d: &Data, d2: &Data) -> Vec<(&'static str, Data)>
 }
 
 /// Both serialised states have the same structure and every pair of numbers is within 2 * machine epsilon
-/// (ABSOLUTE) of each other, yet not all are identical: the hand-written relations compare with an absolute
-/// tolerance of T::epsilon(), so two different models whose numbers are all tiny (seen: an f32 logistic fit on
+/// (ABSOLUTE; SVD: 1e-8, the tolerance of its approximate_eq) of each other, yet not all are identical: the
+/// hand-written relations compare with an absolute tolerance, so two different models whose numbers are all tiny (seen: an f32 logistic fit on
 /// nearly constant columns that stops at coefficients ~1e-8) compare equal although argmax over their scores
 /// differs.  Reported; counted as observed under exactly this predicate.
 fn states_within_abs_eps(a: &Value, b: &Value, eps: f64, any_diff: &mut bool) -> bool {
@@ -769,7 +769,14 @@ fn states_within_abs_eps(a: &Value, b: &Value, eps: f64, any_diff: &mut bool) ->
     }
 }
 fn tolerance_blind_spot<M: Serialize>(c: &Case, a: &M, b: &M) -> bool {
-    let eps = if c.f32m { f32::EPSILON as f64 } else { f64::EPSILON };
+    // (SVD compares with approximate_eq(1e-8): half of 1e-8 here, the helper doubles it)
+    let eps = if c.tname == "SVD" {
+        0.5e-8
+    } else if c.f32m {
+        f32::EPSILON as f64
+    } else {
+        f64::EPSILON
+    };
     match (serde_json::to_value(a), serde_json::to_value(b)) {
         (Ok(x), Ok(y)) => {
             let mut any = false;
@@ -791,6 +798,14 @@ fn observed_blind_spot(tname: &str, a: &Value, b: &Value, rows_differ: bool) -> 
         "KNNClassifier" if same(&["k", "y", "classes"]) => Some("same-k-classes-and-stored-targets;rows/distance/weights-not-compared"),
         // PCA: `==` looks at all p eigenvectors and eigenvalues, never at the projection (n_components), mu, pmu
         "PCA" if same(&["eigenvectors", "eigenvalues"]) && a["projection"] != b["projection"] => Some("same-eigenvectors-and-eigenvalues;projection(n_components)-not-compared"),
+        // SVC / SVR: `==` looks at the support vectors, their weights and the bias (2 eps), never at the kernel
+        "SVC" | "SVR"
+            if same(&["instances", "w"])
+                && a["kernel"] != b["kernel"]
+                && (a["b"].as_f64().unwrap_or(f64::NAN) - b["b"].as_f64().unwrap_or(f64::NAN)).abs() <= 2.0 * f32::EPSILON as f64 =>
+        {
+            Some("same-support-vectors-weights-and-bias;kernel-not-compared")
+        }
         // CoverTree: `==` compares the stored points (through the tree's own distance), not the distance object
         "CoverTree" if same(&["data"]) && a["distance"] != b["distance"] => Some("same-points;distance-object-not-compared"),
         // DBSCAN on the SAME rows (different rows: the listed finding dbscan-eq-ignores-points): `==` looks at
@@ -2259,7 +2274,11 @@ fn replay(path: &str) -> i32 {
             return 2;
         }
     }
-    if out.n_fail() > 0 {
+    let failed = out.n_fail() > 0;
+    if let Ok(dir) = std::env::var("C19_REPLAY_OUT") {
+        out.finish(&dir); // the counters of the replayed case (which `observed:` / `related:` buckets it fell into)
+    }
+    if failed {
         println!("REPLAY: property=C19 still fails: {}", path);
         1
     } else {
@@ -2300,7 +2319,7 @@ fn main() {
     }
 
     // ---- search ----
-    let rounds = if a.thorough { 4000 } else { 300 };
+    let rounds = if a.thorough { 2500 } else { 300 };
     for _ in 0..rounds {
         for kind in KINDS {
             let cs = rng.next_u64();
